@@ -16,6 +16,7 @@ pub mod c10;
 pub mod c11;
 pub mod c12;
 pub mod c13;
+pub mod c14;
 pub mod c06;
 pub mod codes;
 pub mod c07;
@@ -35,6 +36,7 @@ pub fn run(prop: &str, ctx: &Ctx) -> Option<Report> {
         "C11" => c11::run(ctx),
         "C12" => c12::run(ctx),
         "C13" => c13::run(ctx),
+        "C14" => c14::run(ctx),
         "C06" => c06::run(ctx),
         "C07" => c07::run(ctx),
         "C08" => c08::run(ctx),
@@ -55,6 +57,7 @@ pub fn replay(prop: &str, case: &str, rep: &mut Report) -> bool {
         "C11" => c11::replay(case, rep),
         "C12" => c12::replay(case, rep),
         "C13" => c13::replay(case, rep),
+        "C14" => c14::replay(case, rep),
         "C06" => c06::replay(case, rep),
         "C07" => c07::replay(case, rep),
         "C08" => c08::replay(case, rep),
